@@ -239,7 +239,7 @@ Judge(e) ==
     [] e.op \in Setters -> JudgeSet(e)
     [] e.op \in Getters -> JudgeGet(e)
     [] e.op \in {"Uint64", "IsUint64"} -> JudgeU64(e)
-    [] e.op \in {"VWriteTo", "VMarshalBinary"} -> JudgeVWrite(e)
+    [] e.op \in {"VWriteTo", "VMarshalBinary", "VMarshalBinaryDiscard"} -> JudgeVWrite(e)
     [] e.op = "VWriteToFail" -> JudgeVWriteFail(e)
     [] e.op \in VReaders -> JudgeVRead(e)
     [] e.op = "VString" -> JudgeVText(e, VecText(T10))
@@ -266,6 +266,8 @@ NextWire(e) ==
   ELSE IF e.op = "VJSONMarshal" /\ ~Panicked(e) /\ Has(e, "ret")
   THEN [kind |-> "VJSON", base |-> 0, data |-> e.ret, v |-> vv]
   ELSE IF Has(e, "rt") /\ e.rt THEN wire          \* several decoders may be fed the same wire
+  ELSE IF e.op = "VMarshalBinaryDiscard" THEN wire \* an encoding made and dropped while an earlier one is still held:
+                                                  \* the held bytes are the caller's, a later round trip starts from them
   ELSE IF e.op \in {"Load", "VLoad"} THEN wire
   ELSE NoWire
 
